@@ -41,6 +41,7 @@ GRAMMARS = {
         "token A B;\nstart s;\ns: A | A B;\n",          # LL(1) conflict
         "token A B;\nstart s;\ns: A undefined_rule;\n",  # undefined rule
         "token A B;\ns: A B;\n",                         # missing start
+        "token A B Unused;\nstart s;\ns: A | A B;\nunused_rule: B;\n",   # an error followed by later warnings
     ],
 }
 SKELETON = {"lexer.rs": "// my hand-written lexer\nfn keep_me() {}\n", "parser.rs": "// my hand-written callbacks\n"}
